@@ -541,14 +541,19 @@ func parseRule(node *yaml.Node, offsetLine, offsetColumn int, contentLines []str
 func unpackNodes(node *yaml.Node) []*yaml.Node {
 	nodes := make([]*yaml.Node, 0, len(node.Content))
 	var isMerge bool
+	var mergeKey *yaml.Node
 	for i, part := range node.Content {
 		// Only a key can be a merge key, `alert: <<` is a string.
 		if part.ShortTag() == mergeTag && part.Value == "<<" && node.Kind == yaml.MappingNode && i%2 == 0 {
 			isMerge = true
+			mergeKey = part
 		}
 
 		if part.Alias != nil {
 			switch {
+			case isMerge && part.Alias.Kind != yaml.MappingNode:
+				// Only mappings can be merged, keep the pair so it's reported as a key that doesn't belong here.
+				nodes = append(nodes, mergeKey, part.Alias)
 			case isMerge:
 				nodes = append(nodes, resolveMapAlias(part, node).Content...)
 			case node.Kind == yaml.MappingNode && i%2 == 0:
@@ -582,6 +587,9 @@ func unpackNodes(node *yaml.Node) []*yaml.Node {
 						nodes = append(nodes, mergedKeys(item, node)...)
 					}
 				}
+			default:
+				// Only mappings can be merged, keep the pair so it's reported as a key that doesn't belong here.
+				nodes = append(nodes, mergeKey, part)
 			}
 			continue
 		}
